@@ -38,6 +38,12 @@
 // 2n, K*n-1, K*n}: no single loop reaches the limit, so a limit error that
 // appears only with elimination on is a transparency violation.
 //
+// A sixth family ("chain") makes the LENGTH of the terminal chain the explored
+// dimension: one tail call under d nested positions for every d up to 40 / 80,
+// and rings of k mutually tail-recursive functions for every k up to 16 / 32
+// with 0..4 wrappers per body; constant stack for n and 10n turns, the long
+// run again under a small MaxHeightPhysical, and transparency.
+//
 // No expected value is written down except the index of the innermost handler
 // (computed from N).
 package c02
@@ -231,7 +237,8 @@ func (g group) kase(n int) Case {
 type nrun struct {
 	N     int
 	Cfgs  []string
-	Limit int // sequence family: Stack.MaxTailIterations
+	Limit int  // sequence family: Stack.MaxTailIterations
+	Stack bool // chain family: takes part in the constant-stack relation whatever N is
 }
 
 var stackNs = map[int]bool{10: true, 100: true, 1000: true}
@@ -251,6 +258,10 @@ var onOff = []string{cfgOn, cfgOff}
 // estimate; the profiler and plain configurations differ from "on" by one
 // deferred call / the absence of a context and are covered at depth <= 2.)
 func plan(g group, thorough bool) []nrun {
+	if g.Family == "chain" {
+		n := chainTurns(g.Topo)
+		return []nrun{{N: n, Cfgs: allConfigs, Stack: true}, {N: 10 * n, Cfgs: onOff, Stack: true}}
+	}
 	if g.Family == "sequence" {
 		// K loops of n turns each; the limit takes every value of
 		// {n, n+1, 2n-1, 2n, K*n-1, K*n}: each single loop fits, the sum may not
@@ -306,6 +317,18 @@ func plan(g group, thorough bool) []nrun {
 	return out
 }
 
+// chainTurns is the short run's number of turns for a ring of k functions: a
+// multiple of k (so that the short and the 10x run end in the same function)
+// that is at least 10 and at least two full trips round the ring (so that
+// the peak, reached after one trip, is inside the short run).
+func chainTurns(k int) int {
+	m := 2
+	if k*m < 10 {
+		m = (10 + k - 1) / k
+	}
+	return k * m
+}
+
 // checkGroup executes the runs of a group and applies the constant-stack relation.
 func checkGroup(p *pool, g group, runs []nrun, each func(Case, []string, progResult)) []finding {
 	var all []finding
@@ -322,12 +345,12 @@ func checkGroup(p *pool, g group, runs []nrun, each func(Case, []string, progRes
 			each(c, nr.Cfgs, pr)
 		}
 		all = append(all, fs...)
-		if stackNs[nr.N] {
+		if stackNs[nr.N] || nr.Stack {
 			hs = append(hs, hp{nr.N, pr})
 		}
 	}
 	// (2) constant stack: only for shapes whose call is a tail call all the way
-	if (g.Family == "tail" || g.Family == "multiform") && len(hs) >= 2 {
+	if (g.Family == "tail" || g.Family == "multiform" || g.Family == "chain") && len(hs) >= 2 {
 		measures := []struct {
 			name string
 			f    func(progResult) int
@@ -369,8 +392,31 @@ func checkGroup(p *pool, g group, runs []nrun, each func(Case, []string, progRes
 			}
 		}
 	}
+	// chain family: the interpreter's own limit must agree with the monitor:
+	// with MaxHeightPhysical a few frames above the SHORT run's peak, the
+	// LONG run completes with the same outcome.
+	if g.Family == "chain" && len(hs) >= 2 {
+		short, long := hs[0], hs[len(hs)-1]
+		limit := short.pr.heightOn + smallStackMargin
+		c := g.kase(long.n)
+		src := Source(c)
+		ref := execute(p, src, runOpts{}, cfgOn)
+		o := execute(p, src, runOpts{MaxPhys: limit}, cfgOn)
+		if !same(o.Out, ref.Out) {
+			c.Ns = []int{short.n, long.n}
+			c.Oracle = "constant-stack"
+			all = append(all, finding{Oracle: "constant-stack", Case: c,
+				Expected: fmt.Sprintf("the N=%d run completes under MaxHeightPhysical=%d (peak of the N=%d run %d + %d): %s", long.n, limit, short.n, short.pr.heightOn, smallStackMargin, ref.Out.String()),
+				Got:      o.Out.String(),
+				Note:     "a tail loop's stack height must not grow with the number of iterations"})
+		}
+	}
 	return all
 }
+
+// smallStackMargin covers the frames the per-step monitor cannot see (a
+// builtin function's own frame exists only between two evaluation steps).
+const smallStackMargin = 8
 
 // ---------------------------------------------------------------------------
 
@@ -402,6 +448,10 @@ func runsFor(c Case) []nrun {
 	if c.Oracle == "constant-stack" && len(c.Ns) > 0 {
 		var out []nrun
 		for _, n := range c.Ns {
+			if c.Family == "chain" {
+				out = append(out, nrun{N: n, Cfgs: allConfigs, Stack: true})
+				continue
+			}
 			out = append(out, nrun{N: n, Cfgs: allConfigs})
 		}
 		return out
@@ -453,7 +503,7 @@ func (e *explorer) runGroups(groups []group) {
 			e.mu.Lock()
 			_, dup := e.sources[k]
 			e.sources[k] = struct{}{}
-			if (g.Family == "tail" || g.Family == "multiform") && c.N >= 10 && c.Err != "first" && pr.fits {
+			if (g.Family == "tail" || g.Family == "multiform" || g.Family == "chain") && c.N >= 10 && c.Err != "first" && pr.fits {
 				if pr.heightOff > pr.heightOn {
 					e.collapsed++
 				} else {
@@ -475,6 +525,10 @@ func (e *explorer) runGroups(groups []group) {
 			}
 			r.Outcome(g.Family + g.Def + " " + blk + " err=" + c.Err + " -> " + pr.outcomeKind)
 		})
+		if g.Family == "chain" {
+			r.AddEvals(2)       // the long run, with and without the small MaxHeightPhysical
+			r.AddTransitions(6) // 5 height / base-depth comparisons + the small-stack outcome
+		}
 		if g.Family == "tail" || (g.Family == "multiform" && r.Thorough()) {
 			r.AddTransitions(5) // height / base-depth comparisons across N
 		}
@@ -483,9 +537,12 @@ func (e *explorer) runGroups(groups []group) {
 			for _, f := range fs {
 				e.found[f.Oracle]++
 				pendingPerClass[f.class()]++
-				if pendingPerClass[f.class()] > 3 {
+				if pendingPerClass[f.class()] > 3 && g.Family != "chain" {
 					continue // Violate keeps at most 3 cases per class anyway
 				}
+				// (chain family: every finding is kept so that the 3 reported
+				// ones are the smallest depths / ring sizes, whatever the
+				// order in which the workers finished)
 				pending = append(pending, pendingFinding{g, f})
 			}
 			pmu.Unlock()
@@ -500,6 +557,9 @@ func (e *explorer) runGroups(groups []group) {
 		if a.class() != b.class() {
 			return a.class() < b.class()
 		}
+		if len(a.Case.Shape) != len(b.Case.Shape) { // chain family: smallest depth first
+			return len(a.Case.Shape) < len(b.Case.Shape)
+		}
 		if a.Case.Topo != b.Case.Topo {
 			return a.Case.Topo < b.Case.Topo
 		}
@@ -511,10 +571,15 @@ func (e *explorer) runGroups(groups []group) {
 		}
 		return a.Case.N < b.Case.N
 	})
+	reportedPerClass := map[string]int{}
 	for _, pf := range pending {
 		f := pf.f
 		if e.isSubsumed(f) {
 			e.subsumed[f.Oracle]++
+			continue
+		}
+		reportedPerClass[f.class()]++
+		if reportedPerClass[f.class()] > 3 {
 			continue
 		}
 		if !e.confirm(pf.g, f) {
@@ -543,6 +608,41 @@ func makeGroups(family string, shapes [][]string) []group {
 					// the same loop as labels-bound closures (error-free runs only)
 					gs = append(gs, group{Case{Family: family, Def: "labels", Shape: s, Topo: topo, Args: a, Err: "none"}})
 				}
+			}
+		}
+	}
+	return gs
+}
+
+// makeChainGroups: chain LENGTH as the explored dimension.
+//
+//	nest  one function (thorough: also a 2-cycle) whose tail call sits under d
+//	      nested terminal positions, every d in 1..40 (quick, 4 kinds) / 1..80
+//	      (thorough, each of the 15 positions and the 15 in rotation)
+//	ring  k mutually tail-recursive functions, every k in 1..16 / 1..32, each
+//	      body wrapped in the first w = 0..4 positions of two wrapper lists
+func makeChainGroups(thorough bool) []group {
+	kinds := []string{"if-then", "let-body", "funcall", "mixed"}
+	maxD, maxK, topos := 40, 16, []int{1}
+	if thorough {
+		kinds = append(append([]string{}, terminalTokens...), "mixed")
+		maxD, maxK, topos = 80, 32, []int{1, 2}
+	}
+	var gs []group
+	for d := 1; d <= maxD; d++ {
+		for _, t := range kinds {
+			for _, topo := range topos {
+				gs = append(gs, group{Case{Family: "chain", Chain: "nest:" + t, Shape: nestShape(t, d), Topo: topo, Args: "acc", Err: "none"}})
+			}
+		}
+	}
+	for k := 1; k <= maxK; k++ {
+		for wi, wn := range ringWrapperNames {
+			for w := 0; w <= 4; w++ {
+				if w == 0 && wi > 0 {
+					continue // no wrapper: the same program for every list
+				}
+				gs = append(gs, group{Case{Family: "chain", Chain: fmt.Sprintf("ring:%s/w%d", wn, w), Shape: ringWrappers[wn][:w], Topo: k, Args: "acc", Err: "none"}})
 			}
 		}
 	}
@@ -645,6 +745,10 @@ func run(r *core.Run) {
 	r.Bound("sequence_dimensions", map[string]any{"loop_shape_depth": mfDepth, "starters": starters, "function_patterns": funcPatterns,
 		"loops_K": []int{2, 3, 5}, "turns_per_loop_n": "quick 3,10; thorough 2,3,10,30",
 		"Stack.MaxTailIterations": "every value of {n, n+1, 2n-1, 2n, K*n-1, K*n}", "argument_style": "acc"})
+	r.Bound("chain_length_dimensions", map[string]any{
+		"nest":  "tail call under d nested terminal positions, every d in 1..40 (quick: if-then, let-body, funcall, the 15 positions in rotation; self recursion) / 1..80 (thorough: each of the 15 positions and the rotation; self and 2-cycle)",
+		"ring":  "k mutually tail-recursive functions, every k in 1..16 (quick) / 1..32 (thorough), bodies wrapped in the first w=0..4 of {if-then let-body cond-else progn-last} and {funcall let*-body apply or-last}",
+		"turns": "n = the multiple of k that is >= 10 and >= 2k, and 10n", "small_stack": "long run repeated under MaxHeightPhysical = short run's peak + 8"})
 	r.Bound("configurations", allConfigs)
 	r.Rule("a program is every (shape, topology, argument style, error mode, N); non-trivial = it performs at least one recursive call (N>=1) and its elimination-off run stays inside the stack limits so that the transparency relation applies; distinct by source text")
 	r.Assume("elimination off = Runtime.Debugger set to an attached, never-enabled debugger; profiler = a lisp.Profiler that only counts spans")
@@ -656,6 +760,7 @@ func run(r *core.Run) {
 	r.Assume("NT-* positions (including `and`) are not terminal and XP-* positions put the call in a macro's expansion: only transparency is demanded for them")
 	r.Assume("multiform: the side call (a recursive call in the tail of a NON-last form of a multi-form body) is made with n=-100, so its activation goes straight to the base case, prints there and logs itself in g-log; the program's value is (list result g-log)")
 	r.Assume("sequence: K separate loops of n turns run on ONE runtime with Stack.MaxTailIterations >= n, and no single loop reaches the limit (measured: every loop is also run alone in a fresh runtime with elimination on and the same limit; a case where a lone loop already fails is outside the precondition, e.g. funcall>funcall 2-cycles where the funcall frame is itself a loop frame and counts 3 turns for n=2); with elimination off the limit is never consulted, hence any limit error with elimination on is a transparency violation")
+	r.Assume("chain: peak stack height and base-case depth are equal for n and 10n turns, the 10n run completes with elimination on under MaxHeightPhysical = (peak of the n run)+8, and on/off agree; the class names the kind of chain, not its length: the three smallest failing lengths are reported")
 	r.Assume("one runtime per worker and configuration is reused for up to 256 programs (they only redefine globals); it is dropped when a run leaves frames behind, is cancelled or panics; every disagreement is re-confirmed 5x in fresh runtimes")
 	r.Assume("violations are reported minimal-shape-first: a shape that contains an already reported shape (same relation) as a subsequence is counted under subsumed_violations, not reported")
 
@@ -685,9 +790,21 @@ func run(r *core.Run) {
 		{"transparency-only", 1}, {"transparency-only", 2},
 		{"sequence", 0}, {"sequence", 1}, {"sequence", 2},
 		{"multiform", 0}, {"multiform", 1}, {"multiform", 2},
+		{"chain", 0},
 		{"blocked", 3}, {"tail", 3},
 	}
 	for _, st := range steps {
+		if st.family == "chain" {
+			if r.Expired() {
+				r.Cap("soft deadline before the chain-length family")
+				continue
+			}
+			t0 := time.Now()
+			gs := makeChainGroups(r.Thorough())
+			e.runGroups(gs)
+			fmt.Fprintf(os.Stderr, "c02: chain-length family: %d groups, %.1fs\n", len(gs), time.Since(t0).Seconds())
+			continue
+		}
 		shapes := fam[st.family][st.length]
 		if len(shapes) == 0 {
 			continue
